@@ -53,14 +53,24 @@ Proof.
   rewrite (trim_all_nws _ A), str_eqb_refl. reflexivity.
 Qed.
 
-Lemma encode_star_cleaned : forall t, wf_term_nt t = true -> term_recleaned t = false ->
-  forall x, encode_star x (cleaned t) = enc_term x t.
+(* encode_cleaned_term on what the line parsers hand on *)
+Lemma no_lt_not_quoted : forall s, starts_with_c cLT s = false -> looks_quoted s = false.
 Proof.
-  intros t H R x. destruct t as [s|l|p l|b x0|s p o]; cbn [wf_term_nt] in H; try discriminate; cbn [cleaned enc_term].
-  - apply encode_star_stable. apply iri_stable. exact H.
-  - apply encode_star_stable. apply bnode_stable. exact H.
-  - apply encode_star_stable. exact R.
+  intros [|c s] H; [reflexivity|]. unfold looks_quoted, sLTLT. cbn [starts_with starts_with_c] in *. rewrite N.eqb_sym, H. reflexivity.
+Qed.
+
+Lemma encode_cleaned_ok : forall t, wf_term_nt t = true -> term_looks_quoted t = false ->
+  forall x, encode_cleaned x (cleaned t) = enc_term x t.
+Proof.
+  intros t H R x. unfold encode_cleaned. fold (looks_quoted (cleaned t)).
+  destruct t as [s|l|p l|b x0|s p o]; cbn [wf_term_nt] in H; try discriminate; cbn [cleaned enc_term].
+  - rewrite no_lt_not_quoted; [reflexivity|]. destruct s as [|c s']; [reflexivity|].
+    unfold wf_iri in H. cbn [forallb] in H. apply andb_true_iff in H. destruct H as [Hc _].
+    apply iri_char_facts in Hc. destruct Hc as (_ & L & _). exact L.
+  - reflexivity.
+  - cbn [term_looks_quoted] in R. rewrite R. reflexivity.
   - apply andb_true_iff in H. destruct H as [H Ho]. apply andb_true_iff in H. destruct H as [Hs Hp].
+    destruct (quoted_brackets s p o) as [A B]. unfold looks_quoted. rewrite A, B. cbn [andb].
     unfold encode_star. apply (star_quoted s p o Hs Hp Ho).
 Qed.
 
@@ -107,7 +117,7 @@ Proof.
 Qed.
 
 (* a statement whose terms are in the subset and outside the re-cleaning class *)
-Definition term_fine (t : term) : Prop := wf_term_nt t = true /\ term_recleaned t = false.
+Definition term_fine (t : term) : Prop := wf_term_nt t = true /\ term_looks_quoted t = false.
 Definition stmt_ok (q : stmt4) : Prop :=
   let '(s, p, o, g) := q in
   term_fine s /\ term_fine p /\ term_fine o /\
@@ -119,9 +129,9 @@ Definition t3 (q : stmt4) : term * term * term := let '(s, p, o, _) := q in (s, 
 Lemma encode_triple_cleaned : forall x q, stmt_ok q -> encode_triple x (c3 q) = enc_stmt3 x (t3 q).
 Proof.
   intros x [[[s p] o] g] ([Ws Rs] & [Wp Rp] & [Wo Ro] & _). unfold c3, t3, cleaned4, drop_graph, encode_triple, enc_stmt3.
-  rewrite (encode_star_cleaned s Ws Rs). destruct (enc_term x s) as [x1 si].
-  rewrite (encode_star_cleaned p Wp Rp). destruct (enc_term x1 p) as [x2 pi].
-  rewrite (encode_star_cleaned o Wo Ro). reflexivity.
+  rewrite (encode_cleaned_ok s Ws Rs). destruct (enc_term x s) as [x1 si].
+  rewrite (encode_cleaned_ok p Wp Rp). destruct (enc_term x1 p) as [x2 pi].
+  rewrite (encode_cleaned_ok o Wo Ro). reflexivity.
 Qed.
 
 Lemma encode_list_add_quad : forall qs, Forall stmt_ok qs -> forall x q,
@@ -147,10 +157,11 @@ Qed.
 
 (* one statement, N-Quads style (graph name through Dictionary::encode) *)
 Definition step4 (x : db) (q : stmt4) : db :=
-  let '(x3, (si, pi, oi)) := enc_stmt3 x (t3 q) in
   match snd q with
-  | None => add_quad x3 (si, pi, oi, None)
-  | Some gt => let (x4, gi) := db_encode x3 (lex [] gt) in add_quad x4 (si, pi, oi, Some gi)
+  | None => let '(x3, (si, pi, oi)) := enc_stmt3 x (t3 q) in add_quad x3 (si, pi, oi, None)
+  | Some gt =>
+      let (x0, gi) := db_encode x (lex [] gt) in
+      let '(x3, (si, pi, oi)) := enc_stmt3 x0 (t3 q) in add_quad x3 (si, pi, oi, Some gi)
   end.
 
 Lemma step3_step4 : forall x s p o, step3 x (s, p, o, None) = step4 x (s, p, o, None).
@@ -159,11 +170,15 @@ Proof. intros. unfold step3, step4. cbn [t3 snd]. destruct (enc_stmt3 x (s, p, o
 Lemma load_nq_stmt_step4 : forall x q, stmt_ok q -> load_nq_stmt x (cleaned4 q) = step4 x q.
 Proof.
   intros x [[[s p] o] g] ([Ws Rs] & [Wp Rp] & [Wo Ro] & Hg). unfold load_nq_stmt, step4, cleaned4, enc_stmt3. cbn [t3 snd].
-  rewrite (encode_star_cleaned s Ws Rs). destruct (enc_term x s) as [x1 si].
-  rewrite (encode_star_cleaned p Wp Rp). destruct (enc_term x1 p) as [x2 pi].
-  rewrite (encode_star_cleaned o Wo Ro). destruct (enc_term x2 o) as [x3 oi].
-  destruct g as [gt|]; [|reflexivity]. cbn [option_map]. destruct Hg as [_ Hq].
-  destruct gt; try discriminate; reflexivity.
+  destruct g as [gt|]; cbn [option_map].
+  - destruct Hg as [_ Hq]. assert (E : cleaned gt = lex [] gt) by (destruct gt; try discriminate; reflexivity). rewrite E.
+    destruct (db_encode x (lex [] gt)) as [x0 gi].
+    rewrite (encode_cleaned_ok s Ws Rs). destruct (enc_term x0 s) as [x1 si].
+    rewrite (encode_cleaned_ok p Wp Rp). destruct (enc_term x1 p) as [x2 pi].
+    rewrite (encode_cleaned_ok o Wo Ro). destruct (enc_term x2 o) as [x3 oi]. reflexivity.
+  - rewrite (encode_cleaned_ok s Ws Rs). destruct (enc_term x s) as [x1 si].
+    rewrite (encode_cleaned_ok p Wp Rp). destruct (enc_term x1 p) as [x2 pi].
+    rewrite (encode_cleaned_ok o Wo Ro). destruct (enc_term x2 o) as [x3 oi]. reflexivity.
 Qed.
 
 Definition lex4 (q : stmt4) : squad := let '(s, p, o, g) := q in (lex [] s, lex [] p, lex [] o, option_map (lex []) g).
@@ -174,51 +189,66 @@ Proof.
   apply (qts_ok_same x); [exact Q | | exact H]. apply ext_of_grows. apply grows_same_qts; [exact Q | rewrite D; auto].
 Qed.
 
+Lemma enc_stmt3_spec : forall y s p o x3 si pi oi,
+  wf_term_nt s = true -> wf_term_nt p = true -> wf_term_nt o = true ->
+  enc_stmt3 y (s, p, o) = (x3, (si, pi, oi)) -> dict_ok (d_dict y) -> qts_ok y -> next_id (d_dict y) + 9 <= QBIT ->
+  dict_ok (d_dict x3) /\ qts_ok x3 /\ ext y x3 /\ d_quads x3 = d_quads y /\ d_pref x3 = d_pref y /\
+  decode_any x3 si = Some (lex [] s) /\ decode_any x3 pi = Some (lex [] p) /\ decode_any x3 oi = Some (lex [] o) /\
+  next_id (d_dict y) <= next_id (d_dict x3) /\ next_id (d_dict x3) <= next_id (d_dict y) + 9.
+Proof.
+  intros y s p o x3 si pi oi Ws Wp Wo H Hd Hq Hn. unfold enc_stmt3 in H.
+  destruct (enc_term y s) as [x1 i1] eqn:E1.
+  assert (N1 : next_id (d_dict y) + 3 <= QBIT) by lia.
+  destruct (enc_term_spec s y x1 i1 Ws E1 Hd Hq N1) as (D1 & K1 & X1 & Q1 & P1 & C1 & L1 & U1).
+  destruct (enc_term x1 p) as [x2 i2] eqn:E2.
+  assert (N2 : next_id (d_dict x1) + 3 <= QBIT) by lia.
+  destruct (enc_term_spec p x1 x2 i2 Wp E2 D1 K1 N2) as (D2 & K2 & X2 & Q2 & P2 & C2 & L2 & U2).
+  destruct (enc_term x2 o) as [x3' i3] eqn:E3.
+  assert (N3 : next_id (d_dict x2) + 3 <= QBIT) by lia.
+  destruct (enc_term_spec o x2 x3' i3 Wo E3 D2 K2 N3) as (D3 & K3 & X3 & Q3 & P3 & C3 & L3 & U3).
+  inversion H; subst x3' i1 i2 i3; clear H.
+  split; [exact D3|]. split; [exact K3|]. split; [apply (ext_trans _ _ _ X1 (ext_trans _ _ _ X2 X3))|].
+  split; [congruence|]. split; [congruence|].
+  split; [apply (decode_any_ext _ _ _ _ (ext_trans _ _ _ X2 X3) C1)|]. split; [apply (decode_any_ext _ _ _ _ X3 C2)|].
+  split; [exact C3|]. split; lia.
+Qed.
+
 Lemma step4_spec : forall x q, stmt_ok q -> db_okq x -> next_id (d_dict x) + 10 <= QBIT ->
   db_okq (step4 x q) /\
   (forall lq, In lq (den (step4 x q)) <-> In lq (den x) \/ lq = lq_of4 (lex4 q)) /\
   next_id (d_dict (step4 x q)) <= next_id (d_dict x) + 10 /\ ext x (step4 x q) /\ d_pref (step4 x q) = d_pref x.
 Proof.
-  intros x [[[s p] o] g] ([Ws _] & [Wp _] & [Wo _] & Hg) [[Hd Hqd] Hq] Hn. unfold step4, enc_stmt3. cbn [t3 snd].
-  destruct (enc_term x s) as [x1 si] eqn:E1.
-  assert (N1 : next_id (d_dict x) + 3 <= QBIT) by lia.
-  destruct (enc_term_spec s x x1 si Ws E1 Hd Hq N1) as (D1 & K1 & X1 & Q1 & P1 & C1 & L1 & U1).
-  destruct (enc_term x1 p) as [x2 pi] eqn:E2.
-  assert (N2 : next_id (d_dict x1) + 3 <= QBIT) by lia.
-  destruct (enc_term_spec p x1 x2 pi Wp E2 D1 K1 N2) as (D2 & K2 & X2 & Q2 & P2 & C2 & L2 & U2).
-  destruct (enc_term x2 o) as [x3 oi] eqn:E3.
-  assert (N3 : next_id (d_dict x2) + 3 <= QBIT) by lia.
-  destruct (enc_term_spec o x2 x3 oi Wo E3 D2 K2 N3) as (D3 & K3 & X3 & Q3 & P3 & C3 & L3 & U3).
-  assert (X : ext x x3) by (apply (ext_trans _ _ _ X1 (ext_trans _ _ _ X2 X3))).
-  pose proof (decode_any_ext _ _ _ _ (ext_trans _ _ _ X2 X3) C1) as C1'.
-  pose proof (decode_any_ext _ _ _ _ X3 C2) as C2'.
+  intros x [[[s p] o] g] ([Ws _] & [Wp _] & [Wo _] & Hg) [[Hd Hqd] Hq] Hn. unfold step4. cbn [t3 snd].
   destruct g as [gt|].
   - destruct Hg as [Wg Hgq].
-    destruct (db_encode x3 (lex [] gt)) as [x4 gi] eqn:E4.
-    assert (N4 : next_id (d_dict x3) < QBIT) by lia.
-    destruct (db_encode_spec _ _ _ _ E4 D3 N4) as (D4 & X4 & Q4 & P4 & [Cg Cg'] & L4 & U4 & T4).
-    assert (X' : ext x x4) by (apply (ext_trans _ _ _ X X4)).
-    assert (Qx : d_quads x4 = d_quads x) by congruence.
-    destruct (den_ext x x4 X' Qx Hqd) as [Dn Fq].
-    assert (Kq : quad_ok x4 (si, pi, oi, Some gi)).
-    { unfold quad_ok.
-      split; [exists (lex [] s); apply (decode_any_ext x3 x4 _ _ X4 C1')|].
-      split; [exists (lex [] p); apply (decode_any_ext x3 x4 _ _ X4 C2')|].
-      split; [exists (lex [] o); apply (decode_any_ext x3 x4 _ _ X4 C3)|].
-      exists (lex [] gt); exact Cg'. }
-    assert (Kd : den_quad x4 (si, pi, oi, Some gi) = lq_of4 (lex4 (s, p, o, Some gt))).
-    { cbn [den_quad lex4 lq_of4 lq_of option_map].
-      rewrite (decode_any_ext _ _ _ _ X4 C1'), (decode_any_ext _ _ _ _ X4 C2'), (decode_any_ext _ _ _ _ X4 C3), Cg'. reflexivity. }
-    destruct (add_quad_frame x4 (si, pi, oi, Some gi)) as (Fd & _ & Fp).
-    split; [split; [apply add_quad_ok; [split; assumption | exact Kq] | apply add_quad_qts_ok; apply (qts_ok_same x3); assumption]|].
+    destruct (db_encode x (lex [] gt)) as [x0 gi] eqn:E0.
+    assert (N0 : next_id (d_dict x) < QBIT) by lia.
+    destruct (db_encode_spec _ _ _ _ E0 Hd N0) as (D0 & X0 & Q0 & P0 & [_ Cg] & L0 & U0 & T0).
+    pose proof (qts_ok_same x x0 T0 X0 Hq) as K0.
+    destruct (enc_stmt3 x0 (s, p, o)) as [x3 [[si pi] oi]] eqn:E3.
+    assert (N9 : next_id (d_dict x0) + 9 <= QBIT) by lia.
+    destruct (enc_stmt3_spec x0 s p o x3 si pi oi Ws Wp Wo E3 D0 K0 N9) as (D3 & K3 & X3 & Q3 & P3 & C1 & C2 & C3 & L3 & U3).
+    assert (X : ext x x3) by (apply (ext_trans _ _ _ X0 X3)).
+    assert (Qx : d_quads x3 = d_quads x) by congruence.
+    destruct (den_ext x x3 X Qx Hqd) as [Dn Fq].
+    pose proof (proj2 X3 _ _ Cg) as Cg'.
+    assert (Kq : quad_ok x3 (si, pi, oi, Some gi)).
+    { unfold quad_ok. split; [exists (lex [] s); exact C1|]. split; [exists (lex [] p); exact C2|].
+      split; [exists (lex [] o); exact C3 | exists (lex [] gt); exact Cg']. }
+    assert (Kd : den_quad x3 (si, pi, oi, Some gi) = lq_of4 (lex4 (s, p, o, Some gt)))
+      by (cbn [den_quad lex4 lq_of4 lq_of option_map]; rewrite C1, C2, C3, Cg'; reflexivity).
+    destruct (add_quad_frame x3 (si, pi, oi, Some gi)) as (Fd & _ & Fp).
+    split; [split; [apply add_quad_ok; [split; assumption | exact Kq] | apply add_quad_qts_ok; exact K3]|].
     split; [intro lq; rewrite den_add_quad, Dn, Kd; reflexivity|].
-    split; [rewrite Fd; lia|]. split; [apply (ext_trans _ _ _ X'); apply ext_of_grows; apply grows_same_qts; [apply add_quad_frame | rewrite Fd; auto] | rewrite Fp; congruence].
-  - assert (Qx : d_quads x3 = d_quads x) by congruence.
+    split; [rewrite Fd; lia|]. split; [apply (ext_trans _ _ _ X); apply ext_of_grows; apply grows_same_qts; [apply add_quad_frame | rewrite Fd; auto] | rewrite Fp; congruence].
+  - destruct (enc_stmt3 x (s, p, o)) as [x3 [[si pi] oi]] eqn:E3.
+    assert (N9 : next_id (d_dict x) + 9 <= QBIT) by lia.
+    destruct (enc_stmt3_spec x s p o x3 si pi oi Ws Wp Wo E3 Hd Hq N9) as (D3 & K3 & X & Qx & P3 & C1 & C2 & C3 & L3 & U3).
     destruct (den_ext x x3 X Qx Hqd) as [Dn Fq].
     assert (Kq : quad_ok x3 (si, pi, oi, None)).
-    { unfold quad_ok. split; [exists (lex [] s); exact C1'|]. split; [exists (lex [] p); exact C2'|]. split; [exists (lex [] o); exact C3 | exact I]. }
+    { unfold quad_ok. split; [exists (lex [] s); exact C1|]. split; [exists (lex [] p); exact C2|]. split; [exists (lex [] o); exact C3 | exact I]. }
     assert (Kd : den_quad x3 (si, pi, oi, None) = lq_of4 (lex4 (s, p, o, None)))
-      by (cbn [den_quad lex4 lq_of4 lq_of option_map]; rewrite C1', C2', C3; reflexivity).
+      by (cbn [den_quad lex4 lq_of4 lq_of option_map]; rewrite C1, C2, C3; reflexivity).
     destruct (add_quad_frame x3 (si, pi, oi, None)) as (Fd & _ & Fp).
     split; [split; [apply add_quad_ok; [split; assumption | exact Kq] | apply add_quad_qts_ok; exact K3]|].
     split; [intro lq; rewrite den_add_quad, Dn, Kd; reflexivity|].
@@ -291,7 +321,7 @@ Proof.
   destruct g; [discriminate | reflexivity].
 Qed.
 
-Lemma item_stmts_ok : forall i, wf_item_nq i = true -> existsb term_recleaned (item_terms i) = false ->
+Lemma item_stmts_ok : forall i, wf_item_nq i = true -> existsb term_looks_quoted (item_terms i) = false ->
   Forall stmt_ok (item_stmts i).
 Proof.
   intros i H R. destruct i as [ws|ws text|pd s p o g|name iri|s pos]; cbn [wf_item_nq] in H; try discriminate;
